@@ -46,7 +46,9 @@ class _IMTLGWeighting(_Weighting):
             v = torch.ones(matrix.shape[0], device=matrix.device, dtype=matrix.dtype)
 
         v_sum = v.sum()
-        if v_sum.abs() < 1e-12:
+        # The threshold is relative to the magnitude of v (which is inversely proportional to the
+        # scale of the matrix), so that the aggregation stays homogeneous.
+        if v_sum.abs() <= 1e-12 * v.abs().sum():
             weights = torch.zeros_like(v)
         else:
             weights = v / v_sum
